@@ -1,0 +1,16 @@
+//go:build verif
+// +build verif
+
+package state
+
+import (
+	"github.com/xuperchain/xupercore/bcs/ledger/xledger/tx"
+	pb "github.com/xuperchain/xupercore/bcs/ledger/xledger/xldgpb"
+)
+
+// VerifPoolGraph exposes Tx.SortUnconfirmedTx to the verification harness: the pending
+// transactions and the dependency graph the pool order is computed from.
+func (t *State) VerifPoolGraph() (map[string]*pb.Transaction, tx.TxGraph, error) {
+	txMap, graph, _, err := t.tx.SortUnconfirmedTx()
+	return txMap, graph, err
+}
